@@ -39,7 +39,7 @@ class Run(PoolRun):
             alive = []
             for w in self.workers:
                 gone = False
-                for _ in range(40):
+                for _ in range(40 if s.clock_mode != 'adversarial' else 600):
                     if self.child_gone(w):
                         gone = True
                         break
@@ -79,7 +79,7 @@ class Run(PoolRun):
                         if x not in att:
                             self.viol('missing-inputs-explained', 'missing-input-never-handed-to-a-worker', {'x': x, 'partial': g})
                             break
-                        for _ in range(40):
+                        for _ in range(40 if s.clock_mode != 'adversarial' else 600):
                             dead_holders = [u for u in att[x] if self.child_gone(self.workers[u])]
                             if dead_holders:
                                 break
